@@ -242,6 +242,9 @@ def build_config(config, filename=None):
         if ext == 'svgz':  # There is no svgz serializer, use same config as svg
             ext = 'svg'
         supported_args = _EXT_TO_KW_MAPPING.get(ext, ())
+        if config.get('unit') is None:
+            # Don't override the default unit of the serializer
+            config.pop('unit', None)
         # Drop unsupported arguments from config rather than getting a
         # "unsupported keyword" exception
         config = {k: config[k] for k in config if k in supported_args}
